@@ -17,6 +17,6 @@ The property ({pid} — {p['title']}):
 Requirements for the change:
   * It must be the kind of slip a real maintainer could make in a refactor/optimisation/feature (a plausible diff, small, looks fine in review) — not sabotage like deleting a function body, and not something ordinary use would expose at once. Prefer changes that need something SPECIFIC to manifest: a particular input shape or boundary value, a particular multi-step history, a particular interleaving or fault at a particular point, or two cooperating sites that each look fine alone.
   * After the change: `go build ./...` succeeds and the existing tests of every package you touched (and of packages depending on it that are quick to run, e.g. `go test -vet=off -count=1 ./transport/... ./tubes/...` as relevant) still pass. Run them; report exactly what you ran.
-  * Write a demonstration: a Go test file (may be placed inside the package in the worktree, named `zz_seed_demo_test.go`) or a small program that FAILS with your change and PASSES on the unchanged code (verify both: `git stash` / `git stash pop`, or a second checkout). The demonstration must exercise the property as stated (observable behaviour), not an internal detail.
+  * Write a demonstration: a Go test file (may be placed inside the package in the worktree, named `zz_seed_demo_test.go`) or a small program that FAILS with your change and PASSES on the unchanged code (verify both with `git apply -R SEED/patch.diff` and `git apply SEED/patch.diff` — NEVER use `git stash`: the stash is shared by all worktrees of the repository and other people are working in sibling worktrees right now). The demonstration must exercise the property as stated (observable behaviour), not an internal detail.
   * Produce: `{wt}/SEED/patch.diff` (output of `git diff` for the code change only, WITHOUT the demo test), `{wt}/SEED/demo/` (the demonstration file(s) and a one-line `run.sh` showing how to run it from the repo root), `{wt}/SEED/meta.json` with keys: property, summary (what was changed), needs (what it needs in order to manifest), ran (commands you ran and their outcomes). Leave the worktree in place.
 Give 1 change only, but make it a good one. In your final message state the summary, what it needs to manifest, and confirm the four checks (builds; existing tests pass with change; demo fails with change; demo passes without change).""")
